@@ -20,6 +20,8 @@ const HELPS: &[&str] = &[
     "line one\n line two after a hard break\nline three soft",
     "```\nfence at the very start\n```",
     "ends with fence\n\n```\nlast\n```\n",
+    "intro\n\n```text\nfenced line one\n\nfenced line three after an empty one\n```\n\nafter the fence",
+    "two fences\n\n```\na\n\n\nb\n```\n\n```\nc\n```",
 ];
 
 fn opts() -> GenOpts {
@@ -32,7 +34,7 @@ fn opts() -> GenOpts {
     o
 }
 
-fn decorate(s: &mut Spec, rng: &mut Rng) {
+pub fn decorate(s: &mut Spec, rng: &mut Rng) {
     match s {
         Spec::Item(i) => {
             if rng.chance(1, 3) {
